@@ -13,16 +13,17 @@ from .vlib import Check, cps, uncps, with_timeout, ImplTimeout
 
 PID = "C04"
 CLAIM = dict(
-    text="Coq theorems over an executable model of URL building (converter to_url, Rule.build with per-part quoting and defaults, "
-         "suitable_for, build_compare_key order, MapAdapter.build) and urllib.parse.quote/unquote, on top of the matcher model of C03: "
-         "per converter to_python(unquote(to_url v)) = v with to_url v in the converter's language, for string (length options), int "
-         "(signed, fixed_digits, min/max), any, uuid, path, and float over a stated contract of float()/str(); percent-encoding and decimal "
-         "round trips; map-level theorems as listed in the evidence. Tied to the code by the regenerated safe= strings, regex texts and "
-         "decision functions of coq/C03/Gen.v and by differential execution (extracted model vs werkzeug) of to_url / unquote / to_python, "
-         "MapAdapter.build and build-then-match.",
+    text="Coq theorems (Qed, closed under the global context) over an executable model of URL building (converter to_url, Rule.build with "
+         "per-part quoting and defaults, suitable_for, build_compare_key order, MapAdapter.build) and urllib.parse.quote/unquote, on top of the "
+         "matcher model of C03: per converter to_python(unquote(to_url v)) = v with the delivered text in the converter's language, for string "
+         "(length options), path, int (signed, fixed_digits, min/max), any, uuid, and float over a stated contract of float()/str(); "
+         "unquote(quote s) = s and int(str n) = n; C04_build_then_match / C04_match_then_build (in a map whose rules have distinct literal first "
+         "segments the delivered built URL is matched by the building rule with exactly the built values, and rebuilding from the match gives "
+         "the same URL). Tied to the code by the regenerated safe= strings, regex texts and decision functions of coq/C03/Gen.v and by "
+         "differential execution (extracted model vs werkzeug) of to_url / unquote / to_python, MapAdapter.build and build-then-match.",
     note="Trusted: as C03; float(str(x)) = x and the shape of str(x) on positional floats are a Section contract validated by the harness; "
-         "uuid values are carried as their 32 hex digits; query-string extras (werkzeug.urls._urlencode / parse_qsl), host_matching builds and "
-         "Submount/Subdomain factories are exercised by the harness only.",
+         "uuid values are carried as their 32 hex digits; query-string extras (werkzeug.urls._urlencode / parse_qsl) and maps built through "
+         "Submount/Subdomain factories are exercised by the harness only (the model sees the flattened rules); host_matching builds are not covered.",
     design="6/C04")
 
 FIRST = ["r0", "r1", "r2", "r3", "r4", "r5", "users", "all", "pages", "x.y", "é", "a b"]
@@ -132,6 +133,34 @@ def gen_map_c04(rng) -> MapSpec:
     return MapSpec(rules=tuple(rules), strict=rng.random() < 0.8, merge=rng.random() < 0.8, redirect_defaults=rng.random() < 0.7)
 
 
+def make_with_factories(ms: MapSpec):
+    """the same map built through Submount / Subdomain rule factories (Rule.empty() copies): (Map, by_obj)"""
+    from werkzeug.routing import Map, Rule, Subdomain, Submount
+    facs = []
+    for r in ms.rules:
+        first = r.segs[0].lit
+        rest_items = [s_.text() for s_ in r.segs[1:]] + ([f"<path:{r.tail}>"] if r.tail else [])
+        kw = dict(endpoint=f"e{r.endpoint}", methods=list(r.methods) if r.methods is not None else None,
+                  defaults=dict(r.defaults) if r.defaults else None)
+        if not rest_items and not r.branch:
+            inner = Rule(r.string(), **kw)
+            fac = inner
+        else:
+            inner = Rule("/" + "/".join(rest_items) + ("/" if r.branch and rest_items else ""), **kw)
+            fac = Submount("/" + first, [inner])
+        d = r.dom.text()
+        if d:
+            fac = Subdomain(d, [fac])
+        facs.append(fac)
+    m = Map(facs, strict_slashes=ms.strict, merge_slashes=ms.merge, redirect_defaults=ms.redirect_defaults)
+    by = {}
+    specs = {(r.string(), f"e{r.endpoint}", r.dom.text()): r for r in ms.rules}
+    for ro in m.iter_rules():
+        by[id(ro)] = specs[(ro.rule, ro.endpoint, ro.subdomain or "")]
+    m._verif_objs = list(m.iter_rules())
+    return m, by
+
+
 def enc_value(v) -> str:
     if isinstance(v, bool):
         raise AssertionError
@@ -192,6 +221,26 @@ def values_equal(a: dict, b: dict) -> bool:
     return all(type(a[k]) is type(b[k]) and a[k] == b[k] for k in a)
 
 
+def load_corpus_c04():
+    """[(Conv, value)] from corpus/C04/*.json : minimised past failures, run first"""
+    import glob
+    import json
+    import os
+    from .vlib import VERIF
+    out = []
+    for f in sorted(glob.glob(os.path.join(VERIF, "corpus", "C04", "*.json"))):
+        with open(f, encoding="utf-8") as fh:
+            d = json.load(fh)
+        for c in d.get("cases", []):
+            v = c["value"]
+            if c.get("type") == "uuid":
+                v = _uuid.UUID(v)
+            elif c.get("type") == "float":
+                v = float(v)
+            out.append((c03._conv_from(c["conv"]), v))
+    return out
+
+
 def run(chk: Check) -> None:
     from werkzeug.routing import BuildError, Map
     rng = chk.rng
@@ -200,15 +249,18 @@ def run(chk: Check) -> None:
 
     # ---------------- per converter: to_url -> unquote -> regex -> to_python
     dummy = Map([])
-    n_conv = 2500 if quick else 40000
+    n_conv = 4000 if quick else 60000
     fixed_convs = [Conv("s"), Conv("p"), Conv("i"), Conv("i", fixed=3), Conv("i", signed=True), Conv("i", fixed=3, signed=True),
                    Conv("f"), Conv("f", signed=True), Conv("u"), Conv("a", items=("a", "x-y", "a.b"))]
+    corpus = load_corpus_c04()
     for i in range(n_conv):
         c = fixed_convs[i] if i < len(fixed_convs) else (Conv("p") if rng.random() < 0.12 else gen_conv_c04(rng))
         v = gen_value_for(rng, c)
+        if i < len(corpus):
+            c, v = corpus[i]
         if v is None:
             continue
-        if c.kind in "sp" and rng.random() < 0.3:
+        if i >= len(corpus) and c.kind in "sp" and rng.random() < 0.3:
             alpha = "ab/ %;?#&=+@é😀\n\x7f" if c.kind == "p" else "ab %;?#&=+@é😀\n\x7f"
             v = "".join(rng.choice(alpha) for _ in range(rng.randint(1, 6)))
             if c.kind == "p":
@@ -266,11 +318,15 @@ def run(chk: Check) -> None:
         chk.case(("unq", s), nontrivial="%" in s)
 
     # ---------------- maps: build, deliver, match, rebuild
-    n_maps = 330 if quick else 5000
+    n_maps = 520 if quick else 7500
     for mi in range(n_maps):
         ms = gen_map_c04(rng)
         try:
-            m, by_obj = ms.make()
+            if rng.random() < 0.3:
+                m, by_obj = make_with_factories(ms)
+                chk.count("map:factories")
+            else:
+                m, by_obj = ms.make()
         except Exception as e:  # noqa: BLE001
             chk.fail("map-construction", f"{type(e).__name__}: {e}", {"map": ms.describe()})
             continue
@@ -391,7 +447,7 @@ def main(chk: Check) -> None:
     except px.Unsupported as e:
         chk.broken("translator", "C03/Gen.v", str(e))
     chk.forbidden_scan()
-    if chk.coq_make(["C04/Proofs.vo", "C04/Extract.vo"]):
+    if chk.coq_make(["C04/Proofs.vo", "C04/MapProofs.vo", "C04/Extract.vo"]):
         chk.audit_props("C04/Props.v")
     else:
         chk.cov["obligations"] += 1
